@@ -522,8 +522,9 @@ def deliverNotifiers (w : TW) (i : Nat) (n : Notif) : Nat → TW
           match n with
           | .next _ => w1.pushB k [n]
           | _ =>
-            if st.finished .b (fin (w1.stages.drop (k + 1))) then w1
-            else (w1.setStage k (.op2n st (.hot j) false nt)).pushB k [n]
+            -- the subject hands the terminal to every entry (no `p_is_closed()` filter since `fix:
+            -- Subject::error/complete hand the terminal to every subscriber`); the slot is taken
+            (w1.setStage k (.op2n st (.hot j) false nt)).pushB k [n]
         else w1
     | _ => w1
 
@@ -553,8 +554,9 @@ def step (w : TW) : Ev → TW
               match n with
               | .next _ => w1.push 0 [n]
               | _ =>
-                -- `filter(|o| !o.p_is_closed())`, then the slot is taken
-                if fin w.stages then w1 else { w1 with srcAlive := false }.push 0 [n]
+                -- every entry is handed the terminal (no `p_is_closed()` filter since `fix:
+                -- Subject::error/complete hand the terminal to every subscriber`); the slot is taken
+                { w1 with srcAlive := false }.push 0 [n]
             else w1
           | _ => w1
         deliverNotifiers w2 i n w2.stages.length
